@@ -214,6 +214,8 @@ func init() {
 		},
 		"crypto/sha256.Sum256": modelSum256,
 		"fmt.Errorf":           modelOpaqueErr,
+		"google.golang.org/grpc/status.Error":  modelOpaqueErr,
+		"google.golang.org/grpc/status.Errorf": modelOpaqueErr,
 		"fmt.Sprintf":          modelOpaqueStr,
 		"fmt.Sprint":           modelOpaqueStr,
 		"fmt.Sprintln":         modelOpaqueStr,
